@@ -16,7 +16,9 @@
    machine (variant fixed) refines this.  Definitions only.
 
    Scope ([h_op] = None otherwise): operands are built by Entry::from(vec![..]) of relations built by
-   Relation::new(..) / RelationBuilder, and handed over as built; an operation is not issued through a register
+   Relation::new(..) / RelationBuilder, or obtained by PARSING (Entry::from_str / Relation::from_str of
+   any text they accept and whose accessors do not panic: the handle then points INTO the parsed
+   tree), and handed over as built; an operation is not issued through a register
    whose node has left the field, nor through a handle into an operand; positions that make the
    code panic (replace / remove_entry / Entry::replace / remove_relation out of range) are out
    of scope as in RelLive.x_in_range. *)
@@ -29,7 +31,9 @@ Inductive ref : Type :=
 | RLive (i j : nat)                (* the j-th alternative of the i-th entry *)
 | ENew (e : list relrec)           (* Entry::from(vec![Relation::new(..), ..]), not yet handed over *)
 | RNew (r : relrec)                (* Relation::new(..), not yet handed over *)
-| Gone.                            (* a node that is no longer part of the field *)
+| Gone                             (* a node that is no longer part of the field *)
+| EParsed (e : list relrec)        (* Entry::from_str(..), not yet handed over: its content *)
+| RParsed (r : relrec).            (* Relation::from_str(..), not yet handed over: its content *)
 
 Record hstate := mk_hstate {
   h_f : lfield;                    (* the content: RelLiveAll.lcontent *)
@@ -99,17 +103,57 @@ Definition spec_entry (sp : entryspec) : option (list relrec) :=
   | _ => None
   end.
 
+(* operands obtained by parsing: what the accessors read from the one entry (with its one relation)
+   of the tree the text is read to; None when from_str refuses the text or an accessor panics *)
+Definition the_entry (t : rtree) : option rtree :=
+  match nth_index is_entry 0 (children t), nth_index is_entry 1 (children t) with
+  | Some i, None => nth_error (children t) i
+  | _, _ => None
+  end.
+Definition parsed_entry (s : str) : option (list relrec) :=
+  match relations_from_str s with
+  | Ok t => match the_entry t with
+            | Some e => match mapM relrec_of (relations e) with Ok rs => Some rs | _ => None end
+            | None => None
+            end
+  | _ => None
+  end.
+Definition parsed_relation (s : str) : option relrec :=
+  match relations_from_str s with
+  | Ok t => match the_entry t with
+            | Some e =>
+                match nth_index is_relation 0 (children e), nth_index is_relation 1 (children e) with
+                | Some j, None =>
+                    match nth_error (children e) j with
+                    | Some r => match relrec_of r with Ok x => Some x | _ => None end
+                    | None => None
+                    end
+                | _, _ => None
+                end
+            | None => None
+            end
+  | _ => None
+  end.
+
+(* a step of the list model, marked with where its operand comes from: built (it has to satisfy
+   RelEditSpec.wf_operands) or parsed (nothing more is asked: the text was accepted and read) *)
+Inductive hstep : Type := HB (o : aop) | HP (o : aop).
+Definition hs_op (s : hstep) : aop := match s with HB o | HP o => o end.
+Definition hxstep (f : lfield) (s : hstep) : lfield := xstep f (hs_op s).
+Definition hoperands_ok (s : hstep) : bool := match s with HB o => operands_ok o | HP _ => true end.
+
 Definition n_alts (f : lfield) (i : nat) : nat :=
   match nth_error f i with Some e => length e | None => 0 end.
 
 (* ------------------------------------------------------------------ one operation *)
 (* the new state and the step of the list model (RelEditSpec.aop, read by RelLive.xstep) *)
-Definition h_op (o : op) (a : hstate) : option (hstate * list aop) :=
+Definition h_op (o : op) (a : hstate) : option (hstate * list hstep) :=
   let f := h_f a in
   let h := h_reg a in
   let stay := Some (a, []) in
   let regs (h' : nat -> option ref) := Some (mk_hstate f h', []) in
-  let step (o' : aop) (h' : nat -> option ref) := Some (mk_hstate (xstep f o') h', [o']) in
+  let step (o' : aop) (h' : nat -> option ref) := Some (mk_hstate (xstep f o') h', [HB o']) in
+  let stepp (o' : aop) (h' : nat -> option ref) := Some (mk_hstate (xstep f o') h', [HP o']) in
   let remove_relation (i j : nat) :=
     if j <? n_alts f i then
       step (ARemoveRelation i j) (remap (if n_alts f i =? 1 then del_entry_ref i else del_rel_ref i j) h)
@@ -129,19 +173,35 @@ Definition h_op (o : op) (a : hstate) : option (hstate * list aop) :=
       | _ => None
       end
   | ONewEntry k sp =>
-      match spec_entry sp with Some e => regs (upd (ereg k) (Some (ENew e)) h) | None => None end
+      match spec_entry sp with
+      | Some e => regs (upd (ereg k) (Some (ENew e)) h)
+      | None =>
+          match sp with
+          | ESParse s => match parsed_entry s with Some e => regs (upd (ereg k) (Some (EParsed e)) h) | None => None end
+          | _ => None
+          end
+      end
   | ONewRel k sp =>
-      match spec_relrec sp with Some r => regs (upd (rreg k) (Some (RNew r)) h) | None => None end
+      match spec_relrec sp with
+      | Some r => regs (upd (rreg k) (Some (RNew r)) h)
+      | None =>
+          match sp with
+          | RSParse s => match parsed_relation s with Some r => regs (upd (rreg k) (Some (RParsed r)) h) | None => None end
+          | _ => None
+          end
+      end
   | OPush k =>
       match h (ereg k) with
       | None => stay
       | Some (ENew e) => step (APush e) (upd (ereg k) None h)
+      | Some (EParsed e) => stepp (APush e) (upd (ereg k) None h)
       | _ => None
       end
   | OInsert i k =>
       match h (ereg k) with
       | None => stay
       | Some (ENew e) => step (AInsert i e) (upd (ereg k) None (remap (ins_ref i) h))
+      | Some (EParsed e) => stepp (AInsert i e) (upd (ereg k) None (remap (ins_ref i) h))
       | _ => None
       end
   | OReplace i k =>
@@ -149,6 +209,8 @@ Definition h_op (o : op) (a : hstate) : option (hstate * list aop) :=
       | None => stay
       | Some (ENew e) =>
           if i <? length f then step (AReplace i e) (upd (ereg k) None (remap (gone_entry_ref i) h)) else None
+      | Some (EParsed e) =>
+          if i <? length f then stepp (AReplace i e) (upd (ereg k) None (remap (gone_entry_ref i) h)) else None
       | _ => None
       end
   | ORemoveEntry i =>
@@ -162,6 +224,12 @@ Definition h_op (o : op) (a : hstate) : option (hstate * list aop) :=
           | Some (ELive i) => step (AEPush i r) (upd (rreg m) None h)
           | _ => None
           end
+      | Some (RParsed r) =>
+          match h (ereg k) with
+          | None => regs (upd (rreg m) None h)
+          | Some (ELive i) => stepp (AEPush i r) (upd (rreg m) None h)
+          | _ => None
+          end
       | _ => None
       end
   | OEReplace k j m =>
@@ -172,6 +240,14 @@ Definition h_op (o : op) (a : hstate) : option (hstate * list aop) :=
           | None => regs (upd (rreg m) None h)
           | Some (ELive i) =>
               if j <? n_alts f i then step (AEReplace i j r) (upd (rreg m) None (remap (gone_rel_ref i j) h))
+              else None
+          | _ => None
+          end
+      | Some (RParsed r) =>
+          match h (ereg k) with
+          | None => regs (upd (rreg m) None h)
+          | Some (ELive i) =>
+              if j <? n_alts f i then stepp (AEReplace i j r) (upd (rreg m) None (remap (gone_rel_ref i j) h))
               else None
           | _ => None
           end
@@ -203,7 +279,7 @@ Definition h_op (o : op) (a : hstate) : option (hstate * list aop) :=
   end.
 
 (* a whole program: the final state and the history of the list model *)
-Fixpoint h_ops (ops : list op) (a : hstate) : option (hstate * list aop) :=
+Fixpoint h_ops (ops : list op) (a : hstate) : option (hstate * list hstep) :=
   match ops with
   | [] => Some (a, [])
   | o :: rest =>
